@@ -375,6 +375,13 @@ class CallMixin:
             contract = self.registry.lookup(static_cls, fnode.name)
         if contract is None:
             contract = self.registry.lookup(clsname, fnode.name, module.rel)
+        cs_ = self.registry.contracts.get("%s!call" % (("%s.%s" % (static_cls or clsname, fnode.name)) if (static_cls or clsname) else fnode.name))
+        if cs_ is not None and not self.spec:
+            # "<Cls.fn>!call": CALL-SITE SUMMARY of a function whose own contract (key "<Cls.fn>") is verified elsewhere - a
+            # separate contract object derived from it (e.g. exception classes renamed to what the caller's callbacks
+            # raise, total heap havoc), so that refining the view of callers never touches what the function is verified
+            # against (before, contracts/quic_noraise.py mutated the contract of tls.Context.handle_message in place)
+            contract = cs_
         if recv is None and cls is not None:
             # unbound call Class.method(obj, ...) or staticmethod
             is_static = any(getattr(d, "id", None) == "staticmethod" for d in fnode.decorator_list)
